@@ -1,1 +1,272 @@
-fn main() { eprintln!("not built yet"); std::process::exit(2); }
+//! E-NODE / E-CRASH: one real node per OS process under a deterministic simulator.
+//!
+//!   simnode gen  --seed S --prop P                    -> scenario JSON
+//!   simnode exec --scenario F                         -> RunResult JSON (spawns segment children
+//!                                                        when the scenario restarts or crashes)
+//!   simnode run  --seed S --prop P                    -> gen + exec
+//!   simnode segment --scenario F --dir D --from K ... -> SegmentOut JSON (internal)
+mod bigmath;
+mod exec;
+mod model;
+mod node;
+mod scen;
+
+use exec::{Exec, SegmentOut};
+use scen::{Op, Scenario};
+use simcore::*;
+use std::path::{Path, PathBuf};
+use std::sync::atomic::{AtomicU64, Ordering};
+
+/// message of the most recent panic: "location | message"
+pub static LAST_PANIC: std::sync::Mutex<Option<String>> = std::sync::Mutex::new(None);
+
+static HASH_SEED: AtomicU64 = AtomicU64::new(0);
+static HASH_CTR: AtomicU64 = AtomicU64::new(0);
+
+/// Interposes libc's getrandom(3): std derives HashMap RandomState keys from it, so iteration
+/// order of every HashMap/HashSet/DashMap in the node becomes a function of the run's seed.
+#[unsafe(no_mangle)]
+pub unsafe extern "C" fn getrandom(buf: *mut u8, buflen: usize, _flags: u32) -> isize {
+    let mut x = HASH_SEED
+        .load(Ordering::Relaxed)
+        .wrapping_mul(6364136223846793005)
+        .wrapping_add(1442695040888963407)
+        ^ HASH_CTR.fetch_add(1, Ordering::Relaxed).wrapping_mul(0x9E37_79B9_7F4A_7C15);
+    for i in 0..buflen {
+        x ^= x << 13;
+        x ^= x >> 7;
+        x ^= x << 17;
+        unsafe {
+            *buf.add(i) = (x >> 32) as u8;
+        }
+    }
+    buflen as isize
+}
+
+fn scratch() -> PathBuf {
+    let base = if Path::new("/dev/shm").is_dir() { PathBuf::from("/dev/shm") } else { std::env::temp_dir() };
+    base.join(format!("verif-node-{}", std::process::id()))
+}
+
+fn read_scenario(p: &str) -> Scenario {
+    serde_json::from_str(&std::fs::read_to_string(p).expect("scenario file")).expect("scenario json")
+}
+
+fn merge(into: &mut RunResult, seg: &RunResult) {
+    into.steps += seg.steps;
+    into.sim_ms = into.sim_ms.max(seg.sim_ms);
+    into.faults.merge(&seg.faults);
+    into.probes.merge(&seg.probes);
+    into.states.extend(seg.states.iter().cloned());
+    into.nontrivial |= seg.nontrivial;
+    into.log_hash = fp(&[into.log_hash, seg.log_hash]);
+    into.interleaving = fp(&[into.interleaving, seg.interleaving]);
+    if into.violation.is_none() {
+        into.violation = seg.violation.clone();
+    }
+    if into.harness_error.is_none() {
+        into.harness_error = seg.harness_error.clone();
+    }
+}
+
+fn run_scenario(sc: &Scenario, scenario_path: Option<&str>) -> RunResult {
+    let dir = scratch();
+    let _ = std::fs::remove_dir_all(&dir);
+    let multi = sc.ops.iter().any(|o| matches!(o, Op::Restart | Op::Crash { .. }));
+    let mut total = RunResult { seed: sc.seed, ..Default::default() };
+    if !multi {
+        match Exec::open(sc.clone(), &dir, 0) {
+            Ok(mut e) => {
+                let out = e.run(0);
+                total = out.res;
+            }
+            Err(e) => total.harness_error = Some(e),
+        }
+        // process exit tears the node down; remove the directory first
+        let _ = std::fs::remove_dir_all(&dir);
+        return total;
+    }
+    // multi-segment: every segment is its own OS process on the same directories
+    std::fs::create_dir_all(&dir).unwrap();
+    let path = match scenario_path {
+        Some(p) => p.to_string(),
+        None => {
+            let p = dir.join("scenario.json");
+            std::fs::write(&p, serde_json::to_string(sc).unwrap()).unwrap();
+            p.to_string_lossy().to_string()
+        }
+    };
+    let exe = std::env::current_exe().unwrap();
+    let mut from = 0usize;
+    let mut prev: Option<(String, String)> = None;
+    let mut crashed = false;
+    let mut consumed: Vec<usize> = Vec::new();
+    let mut guard = 0;
+    loop {
+        guard += 1;
+        if guard > 64 {
+            total.harness_error = Some("too many segments".into());
+            break;
+        }
+        let mut cmd = std::process::Command::new(&exe);
+        cmd.arg("segment")
+            .arg("--scenario").arg(&path)
+            .arg("--dir").arg(&dir)
+            .arg("--from").arg(from.to_string())
+            .arg("--hash-seed").arg(sc.seed.to_string());
+        if let Some((t, d)) = &prev {
+            cmd.arg("--prev-tip").arg(t).arg("--prev-td").arg(d);
+        }
+        if crashed {
+            cmd.arg("--crashed");
+        }
+        if !consumed.is_empty() {
+            cmd.arg("--consumed").arg(consumed.iter().map(|c| c.to_string()).collect::<Vec<_>>().join(","));
+        }
+        let out = cmd.output().expect("spawn segment");
+        let code = out.status.code();
+        if code == Some(86) {
+            // simulated process death: find out how far it got
+            total.faults.inc("process_death");
+            let plog = std::fs::read_to_string(dir.join("progress.log")).unwrap_or_default();
+            let last = plog.lines().filter(|l| l.split(' ').count() == 3).last();
+            let (done, tip, td) = match last {
+                Some(l) => {
+                    let mut it = l.split(' ');
+                    let i: usize = it.next().unwrap().parse().unwrap();
+                    (Some(i), it.next().unwrap().to_string(), it.next().unwrap().to_string())
+                }
+                None => (None, String::new(), "0".into()),
+            };
+            let interrupted = match done { Some(i) if i + 1 > from => i + 1, _ => from };
+            // the Crash marker that armed this death is consumed
+            if let Some(k) = sc.ops.iter().enumerate().skip(from).find(|(i, o)| matches!(o, Op::Crash { .. }) && !consumed.contains(i)).map(|(i, _)| i) {
+                consumed.push(k);
+            }
+            prev = if tip.is_empty() { prev } else { Some((tip, td)) };
+            crashed = true;
+            from = interrupted + 1;
+            total.steps += 1;
+            continue;
+        }
+        let text = String::from_utf8_lossy(&out.stdout);
+        let seg: Option<SegmentOut> = text.lines().rev().find(|l| l.starts_with('{')).and_then(|l| serde_json::from_str(l).ok());
+        let Some(seg) = seg else {
+            total.harness_error = Some(format!(
+                "segment from {from} exited {:?} without result: {}",
+                code,
+                String::from_utf8_lossy(&out.stderr).chars().rev().take(1500).collect::<String>().chars().rev().collect::<String>()
+            ));
+            break;
+        };
+        merge(&mut total, &seg.res);
+        if seg.finished || total.violation.is_some() || total.harness_error.is_some() {
+            break;
+        }
+        total.faults.inc("clean_restart");
+        // the op at seg.next-1 was the Restart (or an unreached Crash) marker
+        if matches!(sc.ops.get(seg.next - 1), Some(Op::Crash { .. })) {
+            consumed.push(seg.next - 1);
+        }
+        prev = Some((seg.tip.clone(), seg.td.clone()));
+        crashed = false;
+        from = seg.next;
+    }
+    let _ = std::fs::remove_dir_all(&dir);
+    total
+}
+
+fn main() {
+    let args: Vec<String> = std::env::args().collect();
+    let mode = args.get(1).map(|s| s.as_str()).unwrap_or("");
+    // the hash seed must be in place before the first HashMap is created
+    let hs = arg_value(&args, "--hash-seed")
+        .or_else(|| arg_value(&args, "--seed"))
+        .and_then(|s| s.parse::<u64>().ok())
+        .unwrap_or(DEFAULT_SEED);
+    HASH_SEED.store(hs, Ordering::Relaxed);
+    let default_hook = std::panic::take_hook();
+    std::panic::set_hook(Box::new(move |info| {
+        let loc = info.location().map(|l| format!("{}:{}", l.file(), l.line())).unwrap_or_default();
+        let msg = if let Some(s) = info.payload().downcast_ref::<&str>() {
+            s.to_string()
+        } else if let Some(s) = info.payload().downcast_ref::<String>() {
+            s.clone()
+        } else {
+            String::new()
+        };
+        *LAST_PANIC.lock().unwrap() = Some(format!("{loc} | {msg}"));
+        if std::env::var_os("SIM_TRACE").is_some() {
+            default_hook(info);
+        }
+    }));
+    let code = match mode {
+        "gen" => {
+            let seed: u64 = arg_value(&args, "--seed").unwrap().parse().unwrap();
+            let prop = arg_value(&args, "--prop").unwrap_or_else(|| "C01".into());
+            println!("{}", serde_json::to_string(&scen::generate(seed, &prop)).unwrap());
+            0
+        }
+        "run" => {
+            let seed: u64 = arg_value(&args, "--seed").unwrap().parse().unwrap();
+            let prop = arg_value(&args, "--prop").unwrap_or_else(|| "C01".into());
+            let sc = scen::generate(seed, &prop);
+            let res = run_scenario(&sc, None);
+            println!("{}", serde_json::to_string(&res).unwrap());
+            0
+        }
+        "exec" => {
+            let path = arg_value(&args, "--scenario").unwrap();
+            let sc = read_scenario(&path);
+            if arg_value(&args, "--hash-seed").is_none() {
+                HASH_SEED.store(sc.seed, Ordering::Relaxed);
+            }
+            let res = run_scenario(&sc, Some(&path));
+            println!("{}", serde_json::to_string(&res).unwrap());
+            0
+        }
+        "segment" => {
+            let path = arg_value(&args, "--scenario").unwrap();
+            let mut sc = read_scenario(&path);
+            let dir = PathBuf::from(arg_value(&args, "--dir").unwrap());
+            let from: usize = arg_value(&args, "--from").unwrap().parse().unwrap();
+            if let Some(c) = arg_value(&args, "--consumed") {
+                for k in c.split(',').filter_map(|x| x.parse::<usize>().ok()) {
+                    // a consumed crash marker is a no-op
+                    sc.ops[k] = Op::Clock { ms: 0 };
+                }
+            }
+            let prev = arg_value(&args, "--prev-tip").map(|t| (t, arg_value(&args, "--prev-td").unwrap()));
+            let crashed = arg_flag(&args, "--crashed");
+            let out = match Exec::open(sc, &dir, from) {
+                Ok(mut e) => {
+                    if from > 0 || prev.is_some() {
+                        e.after_restart(prev, crashed);
+                    }
+                    e.run(from)
+                }
+                Err(e) => {
+                    let mut o = SegmentOut::default();
+                    // not being able to open after a crash or restart is a property violation (C08)
+                    if from > 0 {
+                        o.res.violation = Some(Violation { property: "C08".into(), class: "reopen_failed".into(), detail: e });
+                    } else {
+                        o.res.harness_error = Some(e);
+                    }
+                    o.finished = true;
+                    o
+                }
+            };
+            println!("{}", serde_json::to_string(&out).unwrap());
+            0
+        }
+        _ => {
+            eprintln!("usage: simnode gen|run|exec|segment ...");
+            2
+        }
+    };
+    // skip destructors of the node (threads, RocksDB): the run is over
+    use std::io::Write;
+    let _ = std::io::stdout().flush();
+    unsafe { libc::_exit(code) }
+}
